@@ -59,6 +59,9 @@ func baseWF(t *rapid.T, o WFOpts) *Spec {
 	if o.MaxNodes == 0 {
 		o.MaxNodes = 9
 	}
+	if o.Names == 0 {
+		o.Names = 25
+	}
 	s := GenWF(o).Draw(t, "base")
 	s.SetName("x")
 	return s
